@@ -62,6 +62,7 @@ func checkC13(c *Ctx) (string, error) {
 	checkConfFields(c, bp)
 	checkDigestFollowsLinks(c, bp)
 	checkStoreAfterOutputs(c, bp)
+	checkMetadataRoundTrip(c, bp)
 	checkCompilerIdentity(c, w.Main("cmd/internal/flags"))
 	return "C13 (structural): completeness of the cache manifest against what the build reads - every os.Getenv/isEnvOn/defaultEnv key in the build-path packages vs the recorded list (raw values), every file channel compiled into an archive vs the digested lists, every build.Config field read in internal/build vs the recorded fields; every range over a map in cl, ssa, ssa/abi, internal/build, internal/cabi, internal/goembed, internal/env is order-insensitive or feeds a slice that is totally sorted before use; load/store key agreement; fingerprint-before-lookup and store-after-success ordering; manifest section field coverage; atomic publication. NOT decided: byte identity of emitted IR beyond iteration order, behavioural equality of cached and clean builds.", nil
 }
